@@ -114,7 +114,7 @@ def _search_one(variant, families, deep=0):
                 dpath = os.path.join(d, 'dict.txt')
                 if not os.path.exists(dpath):
                     open(dpath, 'w').write('\n'.join(x.hex() for x in literals(REPO)) + '\n')
-                p = subprocess.run([exe, 'search', fam], capture_output=True, text=True, timeout=2400, env=dict(os.environ, WITNESS_DEEP=str(deep), WITNESS_DICT=dpath))
+                p = subprocess.run([exe, 'search', fam], capture_output=True, text=True, timeout=(900 if not deep else 3000), env=dict(os.environ, WITNESS_DEEP=str(deep), WITNESS_DICT=dpath))
             except subprocess.TimeoutExpired:
                 out['error'] = 'witness search timed out (%s)' % variant
                 continue
